@@ -112,8 +112,13 @@ def replay(prop_id, path):
             if r.get('crash') is not None:
                 ok = crash_fp(prop_id, r) == doc['fingerprint']
             elif r.get('harness_error'):
-                out('HARNESS-ERROR', r['harness_error'])
-                return 2
+                etype = (str(r['harness_error']).strip().splitlines() or ['?'])[-1].split(':')[0].split('.')[-1].strip()[:40]
+                if doc['fingerprint'] == '%s|exception-out-of-the-extension|%s' % (prop_id, etype):
+                    ok = True          # (see reclassify_extension_errors: the exception out of the extension is the violation)
+                    info = {'exception': etype}
+                else:
+                    out('HARNESS-ERROR', r['harness_error'])
+                    return 2
             else:
                 for v in r.get('violations') or []:
                     if v['fingerprint'] == doc['fingerprint']:
@@ -176,6 +181,45 @@ def handle_violations(pool, prop, part, agg, known, report):
         out('VIOLATION property=%s replay=%s' % (prop_id, path))
 
 
+def reclassify_extension_errors(pool, prop, part, agg, known, report):
+    """An exception raised by the C extension has no Python frame inside zope/interface, so inside the child it cannot be told
+    from an error of the harness itself and is returned as a harness error.  It can be told apart here: the same seed is run
+    again under the Python reference implementation.  If that run is fine, the exception came out of the extension: it is a
+    violation (the library raised where it must not), reported with a replay file.  If the reference run fails too, it stays
+    a harness error (exit 2, never a VIOLATION line)."""
+    done = []
+    seen_types = set()
+    for h in agg.harness_errors:
+        label, item, err = h
+        if not item or 'seed' not in item or not label.startswith('c/') or len(done) >= 6:
+            continue
+        etype = (str(err).strip().splitlines() or ['?'])[-1].split(':')[0].split('.')[-1].strip()[:40]
+        if etype in seen_types:
+            done.append(h)
+            continue
+        cfg_c = next((c for c, _w in part.configs if c.label() == label), None)
+        if cfg_c is None:
+            continue
+        cfg_py = Config('py', cfg_c.hashseed, cfg_c.iro)
+        a2 = engine.run_seeds(pool, part.machine, part.mode, [(cfg_py, [item['seed']])], batch=1, timeout=part.timeout)
+        if a2.harness_errors or a2.timeouts or a2.crashes:
+            continue
+        seen_types.add(etype)
+        done.append(h)
+        fp = '%s|exception-out-of-the-extension|%s' % (prop.id, etype)
+        if kf.match_open(known, prop.id, fp) is not None:
+            continue
+        mod = importlib.import_module('zisim.machines.' + part.machine)
+        program = mod.generate(item['seed'], part.mode)
+        path = write_replay(prop.id, part, cfg_c, fp, 'exception', item['seed'], program, {'traceback': str(err)[-1500:]},
+                            {'note': 'the same seed runs without error under the Python reference implementation'})
+        report['violations'].append({'fingerprint': fp, 'replay': path, 'instances': 1, 'config': label, 'detail': str(err)[-400:]})
+        report['new'] += 1
+        out('  violation fingerprint=%s config=%s (the Python reference runs this seed without error)' % (fp, label))
+        out('VIOLATION property=%s replay=%s' % (prop.id, path))
+    return done
+
+
 def check(prop_id, tier):
     t0 = time.time()
     prop = PROPS[prop_id]
@@ -231,7 +275,8 @@ def check(prop_id, tier):
             out('  part %-14s runs=%d skipped=%d events=%d states=%d crashes=%d wall=%.1fs' % (
                 part.name, agg.runs, agg.skipped, agg.events, len(agg.states), len(agg.crashes), dt))
             if agg.harness_errors:
-                harness_bad.extend(agg.harness_errors[:3])
+                reclassified = reclassify_extension_errors(pool, prop, part, agg, known, report)
+                harness_bad.extend([h for h in agg.harness_errors if h not in reclassified][:3])
             if agg.timeouts:
                 harness_bad.append(('timeout', agg.timeouts[:3], 'run exceeded its wall/step budget'))
             # merge
